@@ -14,6 +14,7 @@ type vtimer struct {
 	ch      chan time.Time // timer/ticker channel (cap 1), nil for AfterFunc / sleepers
 	fn      func()         // AfterFunc body
 	sleeper *Thread
+	th      *Thread // AfterFunc: the pre-created callback thread
 	pending bool
 	owner   *VTimer
 }
@@ -26,6 +27,8 @@ type VTimer struct {
 }
 
 // Now returns the virtual time.
+//
+//go:norace
 func Now() time.Time {
 	if w := cur; w != nil {
 		return Base.Add(time.Duration(w.now))
@@ -34,6 +37,8 @@ func Now() time.Time {
 }
 
 // NowNanos returns virtual nanoseconds since Base.
+//
+//go:norace
 func NowNanos() int64 {
 	if w := cur; w != nil {
 		return w.now
@@ -41,6 +46,7 @@ func NowNanos() int64 {
 	return int64(time.Since(Base))
 }
 
+//go:norace
 func (w *World) addTimer(t *vtimer) {
 	w.tseq++
 	t.seq = w.tseq
@@ -48,6 +54,7 @@ func (w *World) addTimer(t *vtimer) {
 	w.timers = append(w.timers, t)
 }
 
+//go:norace
 func (w *World) delTimer(t *vtimer) bool {
 	for i, x := range w.timers {
 		if x == t {
@@ -59,6 +66,7 @@ func (w *World) delTimer(t *vtimer) bool {
 	return false
 }
 
+//go:norace
 func (w *World) earliest() *vtimer {
 	var best *vtimer
 	for _, t := range w.timers {
@@ -70,6 +78,8 @@ func (w *World) earliest() *vtimer {
 }
 
 // fireDue fires every timer whose deadline is not in the future (virtual time only moves in fireEarliest).
+//
+//go:norace
 func (w *World) fireDue() {
 	for {
 		t := w.earliest()
@@ -81,6 +91,8 @@ func (w *World) fireDue() {
 }
 
 // fireEarliest advances the clock to the earliest pending timer and fires it.
+//
+//go:norace
 func (w *World) fireEarliest() {
 	t := w.earliest()
 	if t == nil {
@@ -92,14 +104,17 @@ func (w *World) fireEarliest() {
 	w.fire(t)
 }
 
+//go:norace
 func (w *World) fire(t *vtimer) {
 	w.delTimer(t)
 	switch {
 	case t.ch != nil:
+		raceDisable() // the scheduler delivers the tick on behalf of the runtime: no edge from whoever runs the scheduler
 		select {
 		case t.ch <- Base.Add(time.Duration(t.when)):
 		default: // a tick nobody consumed is dropped, as in Go
 		}
+		raceEnable()
 		if t.period > 0 {
 			t.when += t.period
 			if t.when <= w.now {
@@ -108,14 +123,17 @@ func (w *World) fire(t *vtimer) {
 			w.addTimer(t)
 		}
 	case t.fn != nil:
-		th := w.newThread("afterfunc", t.fn)
-		th.label = "start"
+		// the thread was created (parked, not startable) by the arming thread, so that in race builds it inherits the
+		// arming thread's clock (timer start happens-before the callback) and not the clock of whoever runs the scheduler
+		t.th.notStarted = false
 	case t.sleeper != nil:
 		// the sleeper's enabledness is now >= sleepTill; nothing else to do
 	}
 }
 
 // Sleep parks the thread until virtual time has advanced by d.
+//
+//go:norace
 func Sleep(d time.Duration) {
 	w := cur
 	if w == nil {
@@ -139,6 +157,8 @@ func Sleep(d time.Duration) {
 }
 
 // NewVTimer creates a one-shot (period 0) or periodic timer.
+//
+//go:norace
 func NewVTimer(d, period time.Duration) *VTimer {
 	w := cur
 	if w == nil {
@@ -153,6 +173,8 @@ func NewVTimer(d, period time.Duration) *VTimer {
 }
 
 // AfterFunc runs f in a new thread after d.
+//
+//go:norace
 func AfterFunc(d time.Duration, f func()) *VTimer {
 	w := cur
 	if w == nil {
@@ -161,6 +183,9 @@ func AfterFunc(d time.Duration, f func()) *VTimer {
 	vt := &VTimer{ep: w.epoch}
 	vt.t = &vtimer{when: w.now + int64(d), fn: f, owner: vt}
 	if !w.aborting {
+		vt.t.th = w.newThread("afterfunc", f)
+		vt.t.th.label = "start"
+		vt.t.th.notStarted = true
 		w.addTimer(vt.t)
 	}
 	return vt
@@ -168,6 +193,8 @@ func AfterFunc(d time.Duration, f func()) *VTimer {
 
 // Stop implements the go1.23+ timer semantics: it reports whether the call prevented the timer's value from being
 // delivered (still pending, or fired but not yet received), and no stale value can be received after it returns.
+//
+//go:norace
 func (vt *VTimer) Stop() bool {
 	w := cur
 	if w == nil || w.aborting || vt.ep != w.epoch {
@@ -185,6 +212,8 @@ func (vt *VTimer) Stop() bool {
 }
 
 // Reset re-arms the timer; same return value as Stop.
+//
+//go:norace
 func (vt *VTimer) Reset(d time.Duration) bool {
 	w := cur
 	if w == nil || w.aborting || vt.ep != w.epoch {
@@ -197,6 +226,8 @@ func (vt *VTimer) Reset(d time.Duration) bool {
 }
 
 // ResetPeriod re-arms a ticker with a new period.
+//
+//go:norace
 func (vt *VTimer) ResetPeriod(d time.Duration) {
 	w := cur
 	if w == nil || w.aborting || vt.ep != w.epoch {
@@ -209,6 +240,8 @@ func (vt *VTimer) ResetPeriod(d time.Duration) {
 }
 
 // PendingTimers reports how many timers are armed (harness assertions).
+//
+//go:norace
 func PendingTimers() int {
 	if w := cur; w != nil {
 		return len(w.timers)
